@@ -27,7 +27,7 @@ ASSUMPTIONS = [
     "margins in the documented boxes; rectangles with end points of magnitude 1e-3..5",
 ]
 REQUIRED_COUNTERS = ["rectangles", "fast_vs_general", "oracle_comparisons", "additivity_checks", "margin_checks",
-                     "subset_checks", "inverse_roundtrips", "instance_interleavings", "rectangles_starting_at_0", "signed_zero_end_points", "copula_changed_on_a_used_model"]
+                     "subset_checks", "inverse_roundtrips", "instance_interleavings", "rectangles_starting_at_0", "signed_zero_end_points", "copula_changed_on_a_used_model", "implied_density_integrals"]
 MIN_NONTRIVIAL = {"quick": 100, "thorough": 1500}
 THOROUGH_ROUNDS = 10      # the thorough tier runs the generators this many times (different seeds)
 
@@ -233,6 +233,53 @@ def run_case(case, R):
                 R.violation(f"mass-depends-on-the-sign-of-a-zero-end-point-{order}", f"{label}: mass({an}, {bn}) = {vn!r} with the end point written -0.0, "
                             f"{vp!r} with 0.0 (fresh instance, {order}" + (f"; {ref!r} on the instance used first" if ref is not None else "") + ")", wit)
                 break
+    # the implied joint density: on a finite rectangle inside one open orthant the mass is the integral of
+    #   |d^d F / du_1..du_d (U_1(x_1), .., U_d(x_d))| * nu_1(x_1) .. nu_d(x_d)
+    # (the copula's stated mixed derivative at the tail integrals; Gauss-Legendre, 2 panels x 12 nodes per coordinate)
+    if cm["copula"]["kind"] == "clayton" and hasattr(m1.copula, "x_first_derivative"):
+        # a narrow rectangle (each side [c, 1.3 c], c in [0.01, 0.5], either sign): the integrand is smooth over it
+        a, b = [], []
+        for k in range(d):
+            c_ = W.r6(W._logu(rng, 0.01, 0.5))
+            sgn = 1.0 if rng.random() < 0.5 else -1.0
+            a.append(min(sgn * c_, sgn * 1.3 * c_))
+            b.append(max(sgn * c_, sgn * 1.3 * c_))
+        got = float(m1.mass(a, b))
+        if got > 1e-9 * sum(abs(oracle.U(k, a[k])) + abs(oracle.U(k, b[k])) for k in range(d)):
+            import time as _time
+            from scipy import integrate as _si
+
+            t_start = _time.time()
+
+            class _TooSlow(Exception):
+                pass
+
+            def joint(*xs):
+                if _time.time() - t_start > 20.0:
+                    raise _TooSlow()
+                xs = xs[::-1]          # nquad hands the innermost variable first
+                w = 1.0
+                for k in range(d):
+                    w *= float(m1.models[k].levy_triplet.nu(float(xs[k])))
+                if w == 0.0:
+                    return 0.0
+                u = np.array([float(m1.marginal_tail_integral(k, float(xs[k]))) for k in range(d)])
+                return w * abs(float(m1.copula.x_first_derivative(u=u)))
+
+            try:
+                try:
+                    total, err_q = _si.nquad(joint, [(a[k], b[k]) for k in range(d)][::-1], opts={"epsabs": 0.0, "epsrel": 1e-9, "limit": 60})
+                except _TooSlow:
+                    total, err_q = math.nan, math.inf
+                if not (err_q <= 1e-7 * abs(got)):
+                    R.skip("implied-density-oracle-inconclusive")
+                else:
+                    R.hit("implied_density_integrals")
+                    if not (abs(total - got) <= 1e-6 * abs(got) + 10 * err_q + floor):
+                        R.violation(f"mass-differs-from-the-integral-of-the-implied-density-{d}d", f"{label}: mass({a}, {b}) = {got!r}, integral of the copula's stated "
+                                    f"mixed derivative at the tail integrals times the marginal densities = {total!r} (+-{err_q:.1e})", wit)
+            except Exception as exc:  # noqa: BLE001
+                R.violation(f"implied-density-raises-{d}d", f"{label}: x_first_derivative raises {type(exc).__name__}: {exc}", wit)
     # the copula of a used model (or of a deep copy of a used model) changed: the masses are those of a model built with the new copula
     if cm["copula"]["kind"] == "clayton" and log:
         import copy
